@@ -273,6 +273,14 @@ static bool cauchyTouchesBound(LSProbe<LBFGS<RealVector> >& o, RealVector const&
 		if(!blocked[k] && (x(k) + cau(k) == l(k) || x(k) + cau(k) == u(k))) return true;
 	return false;
 }
+// fills the part of the stack the next call will use with the double -1e300, so that a read of an uninitialised local
+// (e.g. the bracket arrays of wolfecubic when its bracketing loop runs out of iterations) has a visible effect
+// instead of depending on what happens to be there
+static void __attribute__((noinline)) poisonStack(){
+	volatile double a[8192];
+	for(std::size_t i = 0; i != 8192; ++i) a[i] = -1e300;
+	asm volatile("" : : "r"(a) : "memory");
+}
 static double g_lastDecrease = 0;   // value decrease of the most recent `step` (for the convergence diagnosis)
 
 int main(){
@@ -330,6 +338,7 @@ int main(){
 					// both instances are stepped whatever happens, so that they stay in lockstep after an exception
 					std::exception_ptr curErr;
 					std::feclearexcept(FE_ALL_EXCEPT);
+					poisonStack();
 					try{ cur->o().step(*f); }catch(...){ curErr = std::current_exception(); }
 					ex = std::fetestexcept(FE_INEXACT) ? 0 : 1;
 					try{ twin->o().step(*f); }catch(...){}
@@ -371,6 +380,7 @@ int main(){
 				double gtd = 0; for(std::size_t k = 0; k != n; ++k) gtd += g(k) * d(k);
 				RealVector p0 = p, g0 = g; double v0 = v;
 				LineSearch<RealVector> ls; ls.lineSearchType() = lsType(type); ls.init(*f);
+				poisonStack();
 				ls(p, v, d, g, t0);
 				out << "ls pt=" << showVec(p) << " val=" << vh::exactDouble(v) << " st=" << n << hexVec(p) << "," << hexd(v) << hexVec(g);
 				bool finite = std::isfinite(v);
